@@ -9,11 +9,19 @@
  *             write pointer `p` still points into the old block (p += 4096): ASan heap-use-after-free /
  *             heap-buffer-overflow WRITE in read().
  *   "err"   : a descriptor on which read() fails (write end of a pipe: EBADF).  The -1 is stored in a size_t,
- *             passes the `> 0` test and is added to len: the object ends up with len == size == -1 and a
- *             block obtained from REALLOC(buff, (size_t) -1).  Exit 3. */
+ *             passes the `> 0` test and is added to len (len goes negative); as the failure repeats the loop never
+ *             ends, growing the block by 4096 bytes per turn.  The demo arms alarm(3): exit status 3 on the hang. */
 #include <libast_internal.h>
 #include <sys/wait.h>
 #include <fcntl.h>
+#include <signal.h>
+static void on_alarm(int sig)
+{
+    static const char msg[] = "init_from_fd is still looping on a failing read() after 3 s\n";
+    (void) sig;
+    if (write(2, msg, sizeof(msg) - 1) < 0) _exit(3);
+    _exit(3);
+}
 static void feeder(int fd, int pieces, int piece_len, int pause_ms)
 {
     char block[10000];
@@ -45,6 +53,8 @@ int main(int argc, char **argv)
     }
     if (pipe(fds)) return 0;
     if (!strcmp(mode, "err")) {
+        signal(SIGALRM, on_alarm);
+        alarm(3);
         m = spif_mbuff_new_from_fd(fds[1]);      /* write end: lseek -> ESPIPE, read -> EBADF */
         fprintf(stderr, "read() failing: len=%ld size=%ld buff=%p\n", (long) m->len, (long) m->size, (void *) m->buff);
         return (m->len == 0 && m->size == 0) ? 0 : 3;
